@@ -10,6 +10,7 @@ mod c03;
 mod c04;
 mod c05;
 mod c06;
+mod c07;
 mod c08;
 mod c09;
 mod c10;
@@ -19,6 +20,7 @@ mod c14;
 mod c15;
 mod c18;
 mod c19;
+mod c20;
 mod hist;
 mod tok;
 
@@ -44,11 +46,13 @@ fn main() {
         "C11" => c11::run_c11(&mut out, &mut rng, tier),
         "C12" => c12::run_c12(&mut out, &mut rng, tier),
         "C15" => c15::run_c15(&mut out, &mut rng, tier),
+        "C20" => c20::run_c20(&mut out, &mut rng, tier),
         "C19" => c19::run_c19(&mut out, &mut rng, tier),
         "C18" => c18::run_c18(&mut out, &mut rng, tier),
         "C13" => c04::run_c13(&mut out, &mut rng, tier),
         "C05" => c05::run_c05(&mut out, &mut rng, tier),
         "C06" => c06::run_c06(&mut out, &mut rng, tier),
+        "C07" => c07::run_c07(&mut out, &mut rng, tier),
         "C08" => c08::run_c08(&mut out, &mut rng, tier),
         other => {
             eprintln!("unknown property {other}");
